@@ -42,6 +42,28 @@ CHECKS["C20"] = {
     "timeout_thorough": 3000,
 }
 
+CHECKS["C14"] = {
+    "replay_test": "TestC14Replay",
+    "race": True,
+    "crash_is_violation": True,
+    "unconfirmed_is_violation": True,
+    "replay_times": 2,
+    "env": {"DEADLOCK_DETECTION_ENABLED": "true", "DEADLOCK_TIMEOUT_SECONDS": "60", "GORACE": "halt_on_error=0"},
+    "runs": [{"test": "TestC14", "shards_quick": 12, "checks_quick": 6, "shards_thorough": 16, "checks_thorough": 120, "args": ["-rapid.shrinktime", "1s"]}],
+    "rule": "runs of the real asynchronous stack (entry point: scheduling loop, three RM event handler goroutines, RM proxy, timers, quota preemption loop, event system) built with the race "
+            "detector and with the lock tracker (go-deadlock) switched on: 3-6 client goroutines send generated request scripts (15-60 requests each: applications incl. gang, asks, releases, "
+            "application removals, node add/update/drain/remove, configuration reloads) at the same time, 1-3 reader goroutines call the real REST handlers in process, the shim side confirms "
+            "releases from its own goroutine, the lock wrappers yield at a generated rate (build-tagged hook). Oracle: no race report, no lock tracker report, no panic, every request answered, "
+            "nothing blocked, and the quiescent oracles of C01/C03/C05/C09 on the settled state and after every application was removed (everything back to zero). non-trivial = at least 60 "
+            "requests, 5 allocations and a reload or a placeholder swap in the run; distinct = hash of the generated case",
+    "assumptions": COMMON_ASSUMPTIONS + ["the interleavings are those the Go scheduler produces under the generated workload and yield rate: a run is not a pure function of VERIF_SEED, a failure "
+                                         "is reported with the recorded request/response history even when re-running its case does not fail again",
+                                         "a time budget that runs out is a verdict only when goroutines of the core wait at the same place in two dumps three seconds apart, otherwise inconclusive",
+                                         "completing timeout shortened to 50 ms and reservation delay to 0 through the verif timing hook so that timers fire inside a run"],
+    "timeout_quick": 900,
+    "timeout_thorough": 5400,
+}
+
 CHECKS["C15"] = {
     "replay_test": "TestC15Replay",
     "runs": [{"test": "TestC15", "shards_quick": 12, "checks_quick": 700, "shards_thorough": 16, "checks_thorough": 40000}],
@@ -197,6 +219,12 @@ META = {
                       "no counterexample in N generated scripts, absence not established",
         "level_note": "trusts the reference models in props/c20_test.go, the verif constructor hooks in pkg/events and the Go toolchain; stream timing is only sampled",
         "technique": "model-based property testing (rapid) against a reference ring buffer; coverage-guided fuzzing of op scripts in the thorough tier",
+    },
+    "C14": {
+        "level_text": "generated concurrent workloads on the real goroutine stack under the Go race detector and the lock tracker, quiescent-state invariants afterwards; "
+                      "no race, deadlock, panic or invariant violation in N runs, absence not established (schedules are sampled, not enumerated)",
+        "level_note": "trusts the Go race detector, go-deadlock, the harness in harness/async.go (auto-confirming shim, sentinel requests to detect drained event queues) and the snapshot oracles",
+        "technique": "property-based generation (rapid) of concurrent client scripts run under the race detector with seeded yield points at lock acquisitions; oracle: detector reports + invariants over the final state",
     },
     "C15": {
         "level_text": "generated-input search: near-valid configuration documents against an independent well-formedness predicate, load/reload of every accepted document into the real "
